@@ -23,6 +23,8 @@ type Timing struct {
 	Arrive   [][2]int `json:"arrive,omitempty"`
 	Consume  [][2]int `json:"consume,omitempty"`
 	CancelAt int      `json:"cancelAt,omitempty"`
+	// StopAtCancel: the consumer gives up at the cancel (nobody receives afterwards)
+	StopAtCancel bool `json:"stopAtCancel,omitempty"`
 }
 
 type stamped struct {
@@ -285,12 +287,20 @@ func runGenerator(sc *Scenario) (res Result) {
 		}
 	}()
 	done := make(chan struct{})
+	giveUp := make(chan struct{})
 	want := max(sc.N, 1)
 	go func() {
 		defer close(done)
 		n := 0
 		recv := func() bool {
 			select {
+			case <-giveUp:
+				return false
+			default:
+			}
+			select {
+			case <-giveUp:
+				return false
 			case v, ok := <-out:
 				mu.Lock()
 				defer mu.Unlock()
@@ -309,6 +319,8 @@ func runGenerator(sc *Scenario) (res Result) {
 			if cp[0] > 0 {
 				select {
 				case <-time.After(time.Duration(cp[0]) * unit):
+				case <-giveUp:
+					return
 				case <-e.envStop:
 					return
 				}
@@ -339,6 +351,9 @@ func runGenerator(sc *Scenario) (res Result) {
 		}
 		cancelled = true
 		e.cancelled = true
+		if sc.T.StopAtCancel {
+			close(giveUp)
+		}
 		e.cancel()
 	}
 	timedOut := false
